@@ -26,6 +26,7 @@ SYMBOLS = [
     H.B(1, 2, acct=0), H.B(2, 1, acct=2), H.E(3, 1, acct=1),
     H.S(1, acct=0), H.S(2, acct=0), H.S(1, acct=2), H.S(1, fee=1, acct=1),
     H.M(1, 0, src=0, dst=1), H.M(2, 1, src=0, dst=2), H.M(1, 0, src=2, dst=0),
+    H.M(2, 1, src=0, dst=0),  # consolidation inside one account (accepted with a warning): only the fee leaves the account
 ]
 FIRST = [s for s in SYMBOLS if s[0] in ("B", "E")]
 STEPS = ("h", "d", "y")  # +1 hour: a lot acquired and partly disposed of on the same calendar day (the to-date day)
@@ -272,7 +273,7 @@ def main(tier: str, budget_s: Optional[float] = None) -> int:
         "asset_rows_compared": total.get("asset_rows"),
         "asset_exchange_rows_compared": total.get("exchange_rows"),
         "rule": (
-            "asset B1 = every history up to depth 3 over a 10-symbol alphabet on 3 accounts (2 exchanges x 2 holders: purchases, income, sales with "
+            "asset B1 = every history up to depth 3 over an 11-symbol alphabet on 3 accounts (2 exchanges x 2 holders: purchases, income, sales with "
             "and without fee, transfers with and without fee across holders) in which no account is ever overdrawn; x second asset (none / 2 fixed "
             "multi-holder histories) x method x to-date (none, each year end, each transaction day and the day before; fewer at depth 3 in the quick "
             "tier). One evaluation = one real open_positions generation read back. non-trivial = at least 2 (exchange, holder) rows"
